@@ -124,6 +124,7 @@ InitState(p) ==
    rlru |-> <<>>, rent |-> [x \in {} |-> 0], rfl |-> <<>>,
    up |-> TRUE,
    known |-> [s \in Stmts |-> FALSE],   \* the session's prepared-statement cache has the statement (C14)
+   pver |-> [s \in Stmts |-> 0],        \* ... prepared when the keyspace was at this version
    npol |-> 0, polres |-> NoRes,          \* ghost: what policy.KeyspaceChanged was given
    cleared |-> [k \in Keyspaces |-> 0],   \* ghost: newest version whose event has been applied (clearSchema done)
    nref |-> [k \in Keyspaces |-> 0],      \* ghost: refreshes begun
@@ -257,14 +258,15 @@ RConn(T, x) ==
 RPrep1(T, x, ans) ==
   LET s == Op(T, x).s
       f == T.a[x].cur
-      k == StmtKs(s) IN
+      k == StmtKs(s)
+      pv == T.pver[s] IN     \* the prepared metadata the session holds is as old as its PREPARE
   IF ans = "fail" THEN
     LET T1 == IF Variant = "route_cache_failure" THEN T ELSE RDrop(T, s) IN
     [T1 EXCEPT !.rfl[f].st = "fail", !.a[x].pc = "r_pub"]
   \* protocol 4: the PREPARE answer names the bind positions of the partition key when all of them are bound;
   \* otherwise (and with older protocols) the table's metadata is consulted
-  ELSE IF PkFromPrepare /\ RoutingIdx(PK(T.sv[k]), Binds(s)) # <<>> THEN
-    [T EXCEPT !.rfl[f].st = "ok", !.rfl[f].val = RoutingIdx(PK(T.sv[k]), Binds(s)), !.rfl[f].ver = T.sv[k], !.a[x].pc = "r_pub"]
+  ELSE IF PkFromPrepare /\ RoutingIdx(PK(pv), Binds(s)) # <<>> THEN
+    [T EXCEPT !.rfl[f].st = "ok", !.rfl[f].val = RoutingIdx(PK(pv), Binds(s)), !.rfl[f].ver = pv, !.a[x].pc = "r_pub"]
   ELSE [GWant(T, x, k, T.a[x].rfloor) EXCEPT !.a[x].pc = "r_meta"]
 
 InPrep(T, s) == {x \in ActorsOf(T.plan) : T.a[x].pc = "r_prep" /\ Op(T, x).s = s}
@@ -274,7 +276,8 @@ RPrepAll(T, X, ans) == IF X = {} THEN T ELSE LET x == CHOOSE y \in X : TRUE IN R
 \* the node answers the PREPARE of statement s
 RPrepAnsEn(T, s, ans) == ~T.known[s] /\ InPrep(T, s) # {} /\ (ans = "fail" => T.fails < MaxFail)
 RPrepAns(T, s, ans) ==
-  LET T1 == RPrepAll(T, InPrep(T, s), ans) IN
+  LET T0 == IF ans = "ok" THEN [T EXCEPT !.pver[s] = T.sv[StmtKs(s)]] ELSE T
+      T1 == RPrepAll(T0, InPrep(T, s), ans) IN
   IF ans = "ok" THEN [T1 EXCEPT !.known[s] = TRUE] ELSE [T1 EXCEPT !.fails = @ + 1]
 \* the statement is in the prepared-statement cache already
 RPrepHitEn(T, x) == T.a[x].pc = "r_prep" /\ T.known[Op(T, x).s]
@@ -377,9 +380,12 @@ RouteSingleFlight == \A s \in Stmts : S.nrcomp[s] <= 1 + S.nrrem[s]
 RouteBounded == Len(S.rlru) <= MaxRoute /\ DOMAIN S.rent = Range(S.rlru)
 \* [M3] the routing info is what the partition key of the table (at a version not older than the events handled when
 \* the computation began) and the statement's binds give; "cannot be determined" = nil without error
+\* (with protocol 4 the partition key positions come with the PREPARE answer and are as old as the prepared statement:
+\* the freshness half is about the metadata path)
 RouteFromSchema ==
   \A i \in 1 .. Len(S.rfl) : S.rfl[i].st = "ok" =>
-     (S.rfl[i].ver >= S.rfl[i].floor /\ S.rfl[i].val = RoutingIdx(PK(S.rfl[i].ver), Binds(S.rfl[i].s)))
+     /\ S.rfl[i].val = RoutingIdx(PK(S.rfl[i].ver), Binds(S.rfl[i].s))
+     /\ (~PkFromPrepare \/ S.rfl[i].val = <<>>) => S.rfl[i].ver >= S.rfl[i].floor
 \* NOT guaranteed (documented lack of invalidation, expected to be violated): what a call returns is not older than
 \* the events handled when THAT CALL began
 RouteFreshPerCall ==
